@@ -8,6 +8,7 @@ spec/Sampler.tla states the per-draw guarantees declaratively (exact integer ari
     distributions (N up to 1000 / 2000); TLC judges every recorded event (code -> spec).
 """
 import os
+import time
 
 from ..core import ToolError
 
@@ -54,9 +55,13 @@ def run(ctx):
     ]
 
     # ---------------------------------------------------------------- (a) small cases, spec -> code
-    max_n, max_stake, max_k, brute_k = (3, 5, 6, 4) if quick else (4, 8, 8, 4)
+    max_n, max_stake, max_k, brute_k = (3, 6, 7, 4) if quick else (4, 8, 8, 4)
+    phase = ctx.notes.setdefault("phase_s", {})
+    t0 = time.time()
     r = ctx.tlc("small", "MC_Sampler", mc_cfg(max_n, max_stake, max_k, brute_k), DECAY,
                 workers=4, timeout=1500)
+    phase["tlc_small"] = round(time.time() - t0, 1)
+    t0 = time.time()
     expect_cases = sum((max_stake + 1) ** n - 1 for n in range(1, max_n + 1)) * max_k
     if r.distinct != expect_cases:
         raise ToolError(f"MC_Sampler enumerated {r.distinct} cases, expected {expect_cases}")
@@ -72,11 +77,16 @@ def run(ctx):
     ctx.replay_report("sampler_cases", rep)
     os.remove(r.out_path)
 
+    phase["replay_cases"] = round(time.time() - t0, 1)
+    t0 = time.time()
+
     # ---------------------------------------------------------------- (b) recorded draws, code -> spec
     tdir = os.path.join(ctx.work, "trace")
     rec = ctx.harness(["replay-sampler", "--record", tdir, "--tier", ctx.tier, "--seed", ctx.seed],
                       timeout=3000)
     ctx.notes["recorded"] = {k: rec[k] for k in ("events", "draws", "hist", "max_n")}
+    phase["record"] = round(time.time() - t0, 1)
+    t0 = time.time()
     pairs = []
     for i, ch in enumerate(rec["chunks"]):
         t = ctx.tlc(f"trace{i:03d}", "Trace_Sampler", TRACE_CFG, "", workers=1, timeout=600,
@@ -93,9 +103,12 @@ def run(ctx):
                        "depth": max((m["depth"] for m in chunk_models), default=0),
                        "wall_s": round(sum(m["wall_s"] for m in chunk_models), 1),
                        "mode": "trace validation (one state per recorded event)", "violated": None})
+    phase["tlc_trace"] = round(time.time() - t0, 1)
+    t0 = time.time()
     trep = ctx.harness(["replay-sampler", "--judge", ",".join(pairs), "--seed", ctx.seed], timeout=3000)
     if trep["nodes"] != rec["events"]:
         raise ToolError(f"judged {trep['nodes']} events, recorded {rec['events']}")
+    phase["judge"] = round(time.time() - t0, 1)
     th = trep["act_hist"]
     for key in ["events.small", "events.projected"] + ["strategy." + x for x in LABELS]:
         if not th.get(key):
